@@ -125,3 +125,24 @@ WRAPPERS = {'Option', 'Box', 'Unique', 'NonNull', 'Result', 'ManuallyDrop', 'May
 def norm_chain(ch):
     """drop index steps and std wrapper projections (Option payload, Box pointer ...)"""
     return tuple(e for e in ch if e != IDX and e[0] not in WRAPPERS)
+
+
+def split_args(k):
+    """top-level arguments of a canonical call string  f(a, g(b, c), d)"""
+    inner = k[k.index('(') + 1:-1]
+    out = []
+    d = 0
+    cur = ''
+    for ch in inner:
+        if ch in '([':
+            d += 1
+        elif ch in ')]':
+            d -= 1
+        if ch == ',' and d == 0:
+            out.append(cur.strip())
+            cur = ''
+        else:
+            cur += ch
+    if cur.strip():
+        out.append(cur.strip())
+    return out
